@@ -69,11 +69,13 @@ pub fn gen_id(g: &mut G, own: &VId) -> VId {
 }
 
 pub fn gen_inc(g: &mut G, around: u128) -> u16 {
-    match g.below(10) {
+    match g.below(12) {
         0 => 0,
         1 => 1,
         2 => 65535,
         3 => 65534,
+        10 => *g.pick(&[255u16, 256, 32767, 32768, 32769]),
+        11 => g.below(65536) as u16,
         4 => around.saturating_sub(1) as u16,
         5 => (around + 1).min(65535) as u16,
         6 => g.below(4) as u16,
@@ -357,3 +359,52 @@ pub fn gen_input(g: &mut G, s: &MState, pending: &mut Vec<(u128, MTimer)>, base_
 }
 
 pub fn _unused(_: Member<VId>, _: State) {}
+
+/// Counter wrap-around preludes (u8 timer token, u8 probe number): driven before the
+/// random part of a history so that states with counters at 254/255/0 are visited.
+/// kind 0 = none; returns None when the prelude is over.
+pub fn prelude_input(kind: u64, idx: u64, len: u64, pre: &MState) -> Option<Input> {
+    if idx >= len {
+        return None;
+    }
+    let x = VId::new(3, 1, 0, 0);
+    match kind {
+        1 => {
+            // identity changes: one token bump each
+            let mut id = pre.identity;
+            id.pad = if id.pad == 0 { 1 } else { 0 };
+            Some(Input::ChangeIdentity(id))
+        }
+        2 => {
+            // leave / reuse: one bump each
+            Some(if pre.conn == 2 { Input::ReuseDown } else { Input::Leave })
+        }
+        3 => {
+            // probe rounds: the probe number wraps after 256 rounds
+            if pre.conn != 1 {
+                Some(Input::ApplyMany(vec![MMember { id: x, inc: 0, state: 0 }], idx % 2 == 0))
+            } else {
+                Some(Input::Timer(MTimer::Probe(pre.token)))
+            }
+        }
+        4 => {
+            // the only member goes down and is forgotten again: Idle bumps the token
+            match pre.members.iter().find(|m| m.id == x) {
+                None => Some(Input::ApplyMany(vec![MMember { id: x, inc: 0, state: 0 }], false)),
+                Some(m) if m.state != 2 => Some(Input::ApplyMany(vec![MMember { id: x, inc: 0, state: 2 }], false)),
+                Some(_) => Some(Input::Timer(MTimer::RemoveDown(x))),
+            }
+        }
+        _ => None,
+    }
+}
+
+pub fn pick_prelude(g: &mut G) -> (u64, u64) {
+    match g.below(20) {
+        0 => (1, 250 + g.below(12)),
+        1 => (2, 250 + g.below(12)),
+        2 => (3, 252 + g.below(8)),
+        3 => (4, 3 * (252 + g.below(6))),
+        _ => (0, 0),
+    }
+}
